@@ -29,6 +29,13 @@
 (*                                         computations (residual band)    *)
 (*  boxreal lo, hi, pts, pc, qs, qc, cp, nan   seeded real boxes (2^-16)   *)
 (*                                                                         *)
+(*  arr     ep, n, procs, seed, t, word, s, fail, ex, outlen, inlen, sm,   *)
+(*          nd, df, nk, kf   an array-level entry point on an array of the *)
+(*          size ladder (round 5, AlgebraArr.tla): sm = per observed index *)
+(*          <<i, has, in, out, single, after>> (14 integers), nd / df = how *)
+(*          many (and the first) indices whose array-level result is not   *)
+(*          the single-point result, nk / kf = input elements changed      *)
+(*                                                                         *)
 (* Binary magnitude (round 2): every line also carries the exponents of its  *)
 (* case (all zero for the cases at magnitude 1): inputs were mantissa *      *)
 (* 2^exponent, outputs are mantissas in the unit 2^exponent declared by the  *)
@@ -45,7 +52,7 @@
 (* predicate was exercised with its antecedent true; printed at the end).  *)
 (* Each rejected line is printed as JSON {"l":..,"bad":[..]}.              *)
 (***************************************************************************)
-EXTENDS Algebra, Json
+EXTENDS Algebra, AlgebraArr, Json
 
 Trace == ndJsonDeserialize("trace.ndjson")
 
@@ -61,6 +68,7 @@ Preds == {"C17.QuatRotate", "C17.QuatLength", "C17.QuatCompose", "C17.QuatAxisAn
           "C17.QuatLengthReal", "C17.QuatComposeReal", "C17.QuatAxisFixed", "C17.RotationToReal", "C17.RotationToNear",
           "C17.MatInverseReal", "C17.MatMulAssoc", "C17.MatDetMul", "C17.MatAddReal",
           "C17.TRSReal", "C17.MeshReal", "C17.BoxReal", "Harness.Shape",
+          "C17.ArrayLaw", "C17.ArrayLen", "C17.ArrayInputKept", "Arr.split", "Arr.large",
           "Scaled.rot", "Scaled.rotax", "Scaled.rotq", "Scaled.mat1", "Scaled.mat1inv", "Scaled.mat2", "Scaled.trs",
           "Scaled.mesh", "Scaled.box", "Scaled.real"}
 
@@ -204,6 +212,55 @@ JudgeBoxReal(ln) ==
                     /\ \A k \in 1..3 : Abs(ln.cp[i][k] - BoxClamp(ob, ln.qs[i])[k]) <= Tol
     IN [bad |-> If(~ok, "C17.BoxReal"), ex |-> {"C17.BoxReal"}]
 
+(* ------------------- array-level entry points (size ladder) -------------- *)
+\* An ill-formed line is rejected (a violation of the law: the observation does not show that it holds)
+\* before any of its fields is used.
+ArrFields == {"ep", "n", "procs", "seed", "t", "word", "s", "fail", "ex", "outlen", "inlen", "sm", "nd", "df", "nk", "kf"}
+IsV3(v) == DOMAIN v = 1..3 /\ \A k \in 1..3 : v[k] \in Int
+IsIntSeq(r, n) == DOMAIN r = 1..n /\ \A k \in 1..n : r[k] \in Int
+ArrWellFormed(ln) ==
+    /\ ArrFields \subseteq DOMAIN ln
+    /\ ln.ep \in ArrEpNames
+    /\ ln.n \in Nat /\ ln.procs \in Nat /\ ln.procs >= 1 /\ ln.seed \in Nat
+    /\ ln.outlen \in Int /\ ln.inlen \in Int /\ ln.nd \in Nat /\ ln.nk \in Nat
+    /\ ln.fail \in BOOLEAN /\ ln.ex \in BOOLEAN
+    /\ IsV3(ln.t) /\ IsV3(ln.s)
+    /\ \A j \in DOMAIN ln.word : ln.word[j].side \in Sides /\ ln.word[j].axis \in 1..3 /\ ln.word[j].sgn \in {0 - 1, 1}
+    /\ \A j \in DOMAIN ln.sm : IsIntSeq(ln.sm[j], 14)
+    /\ \A j \in DOMAIN ln.df : IsIntSeq(ln.df[j], 7)
+    /\ \A j \in DOMAIN ln.kf : IsIntSeq(ln.kf[j], 7)
+Sub3(r, k) == <<r[k], r[k + 1], r[k + 2]>>
+Tagged(name, ws) == {name \o ":" \o w : w \in ws}
+
+JudgeArrWF(ln, e, R, want) ==
+    LET n == ln.n
+        exp(i) == SV(ArrLaw(e.law, ln.t, R, ln.s, ArrPoint(i)))
+        inOK(r) == Sub3(r, 3) = SV(ArrPoint(r[1]))
+        \* the harness observed the indices the model asks for, on the array the model describes
+        shape == Len(ln.sm) # Len(want) \/ \E j \in DOMAIN ln.sm : ln.sm[j][1] # want[j] \/ ~inOK(ln.sm[j])
+        \* sampled elements against the model's own integer reference; the real single-point function likewise
+        lawAt == {j \in DOMAIN ln.sm : \E x \in {exp(ln.sm[j][1])} : ln.sm[j][2] # 1 \/ Sub3(ln.sm[j], 6) # x \/ Sub3(ln.sm[j], 9) # x}
+        lawW == {ArrWhere(ln.sm[j][1], n) : j \in lawAt}
+                \cup {ArrWhere(ln.df[j][1], n) : j \in DOMAIN ln.df}
+                \cup (IF ln.nd # 0 /\ ln.df = <<>> THEN {"somewhere"} ELSE {})
+                \cup (IF ln.fail THEN {"panic"} ELSE {})
+        lawW2 == IF lawW = {} /\ ~ln.ex THEN {"inexact"} ELSE lawW
+        \* the input after the call is untouched
+        \* (in place the array passed in IS the result: judged by ArrayLaw, not a second time here)
+        keptAt == IF e.inplace THEN {} ELSE {j \in DOMAIN ln.sm : Sub3(ln.sm[j], 12) # Sub3(ln.sm[j], 3)}
+        keptW == {ArrWhere(ln.sm[j][1], n) : j \in keptAt}
+                 \cup (IF e.inplace THEN {} ELSE {ArrWhere(ln.kf[j][1], n) : j \in DOMAIN ln.kf}
+                                                \cup (IF ln.nk # 0 /\ ln.kf = <<>> THEN {"somewhere"} ELSE {}))
+                 \cup (IF ln.inlen # n /\ ~ln.fail THEN {"len"} ELSE {})
+        split == ln.procs >= 2 /\ n % ln.procs # 0
+    IN IF shape THEN [bad |-> {"Harness.Shape"}, ex |-> {}]
+       ELSE [bad |-> Tagged("C17.ArrayLaw", lawW2) \cup If(ln.outlen # n, "C17.ArrayLen") \cup Tagged("C17.ArrayInputKept", keptW),
+             ex |-> {"C17.ArrayLaw", "C17.ArrayLen", "C17.ArrayInputKept"} \cup If(split, "Arr.split") \cup If(split /\ n > 16384, "Arr.large")]
+
+JudgeArr(ln) ==
+    IF ~ArrWellFormed(ln) THEN [bad |-> {"C17.ArrayLaw:illformed"}, ex |-> {}]
+    ELSE CHOOSE r \in {JudgeArrWF(ln, ArrEpOf(ln.ep), R, want) : R \in {WordMat(ln.word)}, want \in {ArrSamples(ln.n, ln.procs, ln.seed)}} : TRUE
+
 (* ------------------------- binary magnitude: units ------------------------ *)
 LineUsesS(ln) == IF ln.k = "trs" THEN ln.ctor \in {"New", "Scale"} ELSE ln.op \in {"Scale", "ApplyTRS"}
 UnitsBad(ln) ==
@@ -238,6 +295,7 @@ JudgeKind(ln) ==
       [] ln.k = "boxenc" -> JudgeBoxEnc(ln)
       [] ln.k = "res" -> JudgeRes(ln)
       [] ln.k = "boxreal" -> JudgeBoxReal(ln)
+      [] ln.k = "arr" -> JudgeArr(ln)
       [] OTHER -> [bad |-> {}, ex |-> {}]
 
 Judge(ln) ==
